@@ -46,6 +46,9 @@ def normalise(fmt, data: bytes):
             # the tags are a SET: the order in which the writer emits them is the set's iteration order, which a deep
             # copy of the writer may legitimately change (see DESIGN 10.3)
             tags[:] = sorted(tags, key=lambda el: el.tag)
+            tags.text = None
+            for el in tags:
+                el.tail = None  # the pretty-printer's indentation travels with the elements
         return etree.tostring(root)
     msg = commonroad_pb2.CommonRoad()
     try:
